@@ -9,10 +9,11 @@
      * Radius / KNearest / LSHNearest store exactly the concatenation of the rows of fit and partial_fit
        (C03_history_after_fit / _partial_fit) and LSH files a partial_fit row under start+i in the bucket of
        its hash with the SAME planes (C11_insert_rows_bucket).
-    ..._partial: linear policies (associativity of matrix sums) and Clusters are covered by the batch-versus-
-    chunked relation on the implementation only. *)
+    PROVED for the linear policies (scale=False, exact arithmetic): any two ways of cutting the same per-arm rows into
+    fit + partial_fit calls give the same A, X'y, A_inv and beta for every arm (X'X and X'y are additive over row blocks).
+    ..._partial: Clusters (k-means is re-run on the whole history) is covered by the batch-versus-chunked relation only. *)
 From Coq Require Import List ZArith Bool Arith QArith Qcanon Permutation.
-From MW Require Import Num Assoc AssocFacts Rng Par CF CFInv CFClean CFForget CFSpec Matrix Lin Warm WarmInv Nbr NbrFacts NbrIndep LshFacts Clu Tree CellFacts Mab FacadeCF FacadeArms MoreFacts NumLaws CFAlg Sim Extra QcInst.
+From MW Require Import Num Assoc AssocFacts Rng Par CF CFInv CFClean CFForget CFSpec Matrix Lin Warm WarmInv Nbr NbrFacts NbrIndep LshFacts Clu Tree CellFacts Mab FacadeCF FacadeArms MoreFacts NumLaws CFAlg Sim Extra QcInst OrderFacts ExpIrrel LinInv FacadeLin LpInv NbrInv CluTreeInv FacadeAll ToyFacts C09All C10All LinForget LinSim MatrixFacts GaussJordan LinSpec NbrIndepGen CluIndep C17Lin WarmIdem.
 Import ListNotations.
 
 Theorem C06_statistics_depend_only_on_concatenated_history :
@@ -51,5 +52,47 @@ Theorem C06_laws_are_satisfiable :
   NumLaws QcNum.
 Proof. exact @QcLaws. Qed.
 Print Assumptions C06_laws_are_satisfiable.
+
+Theorem C06_linear_split_into_fit_and_partial_fit_is_irrelevant :
+  forall (R A G : Type) (N : Num R),
+  NumLaws N ->
+  forall aeqb : A -> A -> bool,
+  (forall x y : A, aeqb x y = true <-> x = y) ->
+  forall (s0 : (@lin R A G)) (g g' : G) (d0 : list A) (rs0 : list R) (cx0 : (@mat R)) (h : list batch) 
+    (d0' : list A) (rs0' : list R) (cx0' : (@mat R)) (h' : list batch) (a : A),
+  lin_keys_ok s0 ->
+  In a (l_arms s0) ->
+  l_scale s0 = false ->
+  snd (lin_fit N aeqb s0 g d0 rs0 cx0) = true ->
+  snd (lin_partials N aeqb (fst (lin_fit N aeqb s0 g d0 rs0 cx0)) g h) = true ->
+  snd (lin_fit N aeqb s0 g' d0' rs0' cx0') = true ->
+  snd (lin_partials N aeqb (fst (lin_fit N aeqb s0 g' d0' rs0' cx0')) g' h') = true ->
+  ncols cx0 = ncols cx0' ->
+  let bs := arm_batches aeqb a ((d0, rs0, cx0) :: h) in
+  let bs' := arm_batches aeqb a ((d0', rs0', cx0') :: h') in
+  bs <> [] ->
+  bs' <> [] ->
+  concat (map fst bs) = concat (map fst bs') ->
+  concat (map snd bs) = concat (map snd bs') ->
+  let mk := model aeqb (fst (lin_partials N aeqb (fst (lin_fit N aeqb s0 g d0 rs0 cx0)) g h)) a in
+  let mk' := model aeqb (fst (lin_partials N aeqb (fst (lin_fit N aeqb s0 g' d0' rs0' cx0')) g' h')) a
+    in
+  r_A mk = r_A mk' /\ r_Xty mk = r_Xty mk' /\ r_Ainv mk = r_Ainv mk' /\ r_beta mk = r_beta mk'.
+Proof. exact @lin_split_irrelevant. Qed.
+Print Assumptions C06_linear_split_into_fit_and_partial_fit_is_irrelevant.
+
+Theorem C06_gram_matrix_additive_over_row_blocks :
+  forall (R : Type) (N : Num R),
+  NumLaws N -> forall (d : nat) (x1 x2 : (@mat R)), xtx N d (x1 ++ x2) = madd N (xtx N d x1) (xtx N d x2).
+Proof. exact @xtx_app. Qed.
+Print Assumptions C06_gram_matrix_additive_over_row_blocks.
+
+Theorem C06_moment_vector_additive_over_row_blocks :
+  forall (R : Type) (N : Num R),
+  NumLaws N ->
+  forall (d : nat) (x1 x2 : (@mat R)) (y1 y2 : (@vec R)),
+  length x1 = length y1 -> xty N d (x1 ++ x2) (y1 ++ y2) = vadd N (xty N d x1 y1) (xty N d x2 y2).
+Proof. exact @xty_app. Qed.
+Print Assumptions C06_moment_vector_additive_over_row_blocks.
 
 
